@@ -80,6 +80,14 @@ def check_start_language(ctx, rep, cls_short, method, spec_name, alphabet, judge
     for pr in paths:
         for m in pr.matches:
             patterns[m.rx] = m
+    if not _one_whole_line_regex(patterns):
+        # a start written (partly) by hand, or as several patterns: its language is not read off one regex literal
+        rep.note('%s does not apply exactly one regex literal to the whole line (%d pattern(s)): its language is not decided'
+                 % (where, len(patterns)))
+        rep.extra.setdefault('undecided_starts', []).append(where)
+        return None, None, None
+    for pr in paths:
+        for m in pr.matches:
             # R-START-ANCHOR
             if isinstance(m.subject, AbsStr):
                 ok = m.method == 'match'
@@ -103,9 +111,6 @@ def check_start_language(ctx, rep, cls_short, method, spec_name, alphabet, judge
         excluded = [pr for pr in paths if not pr.truth and _is_backtick_filter(pr.trace)]
         if not excluded:
             filter_absent = True
-    if len(patterns) != 1:
-        raise AnalysisError('%s applies %d regex literals to the line, expected exactly one'
-                            % (where, len(patterns)))
     rxv = list(patterns)[0]
     line = rx.line_lang(alphabet)
     L = rx.Lang(rxv.pattern, rxv.flags, mode='match', alphabet=alphabet, name=where)
@@ -132,6 +137,19 @@ def check_start_language(ctx, rep, cls_short, method, spec_name, alphabet, judge
     return w, under, rxv
 
 
+def _one_whole_line_regex(patterns):
+    """Exactly one regex literal, applied to the line as it was handed in (not to a slice or a stripped copy, not from a
+    position other than 0)."""
+    if len(patterns) != 1:
+        return False
+    m = list(patterns.values())[0]
+    subj = m.subject
+    prov = getattr(subj, 'prov', None)
+    whole = isinstance(subj, AbsStr) and isinstance(prov, tuple) and prov[:1] == ('src',)
+    pos = getattr(m, 'pos', 0)
+    return whole and (pos == 0 or pos is None)
+
+
 def start_pattern(ctx, cls_short, method):
     """The one regex a block start applies to its line (no reporting)."""
     model = ctx.model
@@ -141,8 +159,8 @@ def start_pattern(ctx, cls_short, method):
     for pr in paths:
         for m in pr.matches:
             patterns[m.rx] = m
-    if len(patterns) != 1:
-        raise AnalysisError('%s.%s applies %d regex literals to the line, expected exactly one' % (cls.short, method, len(patterns)))
+    if not _one_whole_line_regex(patterns):
+        return None
     return list(patterns)[0]
 
 
@@ -422,7 +440,7 @@ def run(ctx):
     for cls_short, method, spec_name in TARGETS:
         w, under, rxv = check_start_language(ctx, rep, cls_short, method, spec_name, rx.ALPHABET_CORE)
         notes['%s.%s' % (cls_short, method)] = {'over_witness': w, 'under_witness_reported_only': under}
-        if ctx.thorough:
+        if ctx.thorough and rxv is not None:
             wf, uf, _ = check_start_language_notes(ctx, cls_short, method, spec_name, rxv)
             notes['%s.%s' % (cls_short, method)]['extended_alphabet'] = {'over': wf, 'under': uf}
     # ListItem.pattern: the marker parser that List.read relies on
@@ -443,7 +461,7 @@ def run(ctx):
                  % w, loc(model.unit_of(li), li.node), witness=w)
     rep.extra['language_notes'] = notes
     rep.floor('R-START-INCL', rep.rules['R-START-INCL']['instances'], 5)
-    rep.floor('R-START-ANCHOR', rep.rules['R-START-ANCHOR']['obligations'], 5)
+    rep.floor('R-START-ANCHOR', rep.rules['R-START-ANCHOR']['obligations'] + len(rep.extra.get('undecided_starts', [])), 5)
     # shared clauses
     from . import c03
     c03.rule_cond(ctx, rep)     # digits, dots and parentheses that do not form an interrupting list marker stay prose
